@@ -154,6 +154,10 @@ fn on_spin() {
     BLOCK.with(|b| {
         if let Some(b) = b.borrow_mut().as_mut() {
             b.spins += 1;
+            if b.spins > 100000 {
+                b.failures.push("[C05] blocking helper still spinning 100000 iterations after the device served the request".into());
+                panic!("runaway spin");
+            }
             if b.served {
                 return;
             }
@@ -173,10 +177,6 @@ fn on_spin() {
                         serve(b);
                     }
                 }
-            }
-            if b.spins > 100000 {
-                b.failures.push("[C05] blocking helper still spinning after the device served the request".into());
-                panic!("runaway spin");
             }
         }
     });
